@@ -512,6 +512,9 @@ impl<'p> World<'p> {
         self.stats.distinct.insert(format!("keygen|{}|{}|{}|{}", bk.name(), kind.name(), rng.kind(), r.class()));
         if fired {
             self.stats.bump("fault:rng-fail-fired");
+            if let Some(c) = rng.fail_class() {
+                self.stats.bump(&format!("fault:rng-fail:{c}"));
+            }
             self.judge_rng_failure(bk, &format!("keygen-{}", kind.name()), r.is_ok(), r.is_panic(), &r.class());
             return;
         }
@@ -745,6 +748,9 @@ impl<'p> World<'p> {
         let fired = draws.iter().any(|d| d.failed);
         if fired {
             self.stats.bump("fault:rng-fail-fired");
+            if let Some(c) = rng.fail_class() {
+                self.stats.bump(&format!("fault:rng-fail:{c}"));
+            }
             self.judge_rng_failure(bk, &op, r.is_ok(), r.is_panic(), &r.class());
             return;
         }
@@ -836,6 +842,9 @@ impl<'p> World<'p> {
         self.obs(&format!("reseal {} {} -> {}", bk.name(), purpose.name(), match &r { Out::Ok(s) => s.clone(), o => o.class() }));
         if draws.iter().any(|d| d.failed) {
             self.stats.bump("fault:rng-fail-fired");
+            if let Some(c) = rng.fail_class() {
+                self.stats.bump(&format!("fault:rng-fail:{c}"));
+            }
             // the draw that failed is the one of the sealing half: same call site as a plain seal
             self.judge_rng_failure(bk, &format!("seal-{}", purpose.name()), r.is_ok(), r.is_panic(), &r.class());
             return;
@@ -1408,6 +1417,9 @@ impl<'p> World<'p> {
         let fired = draws.iter().any(|d| d.failed);
         if fired {
             self.stats.bump("fault:rng-fail-fired");
+            if let Some(c) = rng.fail_class() {
+                self.stats.bump(&format!("fault:rng-fail:{c}"));
+            }
             self.judge_rng_failure(bk, &op, r.is_ok(), r.is_panic(), &r.class());
             return;
         }
